@@ -31,11 +31,12 @@ type Ob struct {
 
 // Rule is a checker rule. Run enumerates obligations into the reporter.
 type Rule struct {
-	ID    string
-	Props []string // default property tags of its obligations
-	Floor int      // minimum number of obligations confirmed by hand on the pinned tree
-	Doc   string   // one-line statement of the rule
-	Run   func(c *Ctx, r *Reporter)
+	ID      string
+	Props   []string // properties the rule serves; default tags of its obligations
+	Default []string // default tags when they are fewer than Props (obligations tagged individually)
+	Floor   int      // minimum number of obligations confirmed by hand on the pinned tree
+	Doc     string   // one-line statement of the rule
+	Run     func(c *Ctx, r *Reporter)
 }
 
 type Reporter struct {
@@ -52,6 +53,9 @@ func newReporter(c *Ctx) *Reporter { return &Reporter{c: c, seen: map[string]int
 func (r *Reporter) add(st Status, props []string, key, pos, msg string, trace ...string) {
 	if props == nil {
 		props = r.rule.Props
+		if r.rule.Default != nil {
+			props = r.rule.Default
+		}
 	}
 	k := r.rule.ID + "|" + key
 	if n := r.seen[k]; n > 0 {
